@@ -804,6 +804,7 @@ Proof.
   - injection H as <-. split; [exact Hg|apply extends_refl].
   - unfold insert_new_segment in H.
     destruct (close_and_add_segment ww ver st) as [st'| |] eqn:E; cbn [bind] in H; try discriminate.
+    destruct (negb (in_memory ww _)); [discriminate|].
     injection H as <-. destruct (close_good _ _ E Hg) as [[G1 G2] G3].
     unfold good, linv in *. cbn [b_wr b_labels b_wcount]. rewrite G3 in *.
     split; [split; [exact G1|exact G2]|apply extends_refl].
@@ -898,6 +899,7 @@ Proof.
       + now injection E as <-.
       + unfold insert_new_segment in E.
         destruct (close_and_add_segment ww ver st) as [stc| |] eqn:Ec; cbn [bind] in E; try discriminate.
+        destruct (negb (in_memory ww _)); [discriminate|].
         injection E as <-. cbn [b_wr].
         unfold close_and_add_segment in Ec. destruct (b_nextw st =? b_first st); [now injection Ec as <-|].
         destruct (add_segment_to_fjm ww ver (b_wr st) (b_first st) (b_nextw st) (b_fj st) (b_wf st)) as [[wr c]| |] eqn:Ea;
@@ -1622,6 +1624,7 @@ Proof.
       destruct (resolve_step_good _ _ _ _ _ _ Estep Hg) as [G' _].
       cbn [resolve_step] in Estep. unfold insert_new_segment in Estep.
       destruct (close_and_add_segment ww ver st) as [stc| |] eqn:Ec; cbn [bind] in Estep; try discriminate.
+      destruct (negb (in_memory ww _)); [discriminate|].
       injection Estep as <-.
       destruct (close_emits _ _ _ _ Ec Hs ltac:(rewrite Hws; exact Ha)) as (E0 & Hle0 & Hinv0 & F1 & F2 & _).
       rewrite F1, F2 in *.
@@ -1895,6 +1898,7 @@ Proof.
     + now injection E as <-.
     + unfold insert_new_segment in E.
       destruct (close_and_add_segment ww ver st) as [stc| |] eqn:Ec; cbn [bind] in E; try discriminate.
+      destruct (negb (in_memory ww _)); [discriminate|].
       injection E as <-. cbn [b_labels].
       unfold close_and_add_segment in Ec. destruct (b_nextw st =? b_first st); [now injection Ec as <-|].
       destruct (add_segment_to_fjm ww ver (b_wr st) (b_first st) (b_nextw st) (b_fj st) (b_wf st)) as [[wr c]| |];
